@@ -95,8 +95,8 @@ UnaryCalls(nlogs, lvls) ==
           lvl : {""}, o : {"value"}]
 
 PreSeqs(n) == UNION { [1..k -> {"emit", "emitlogs"}] : k \in 0..n }
-ProdTerms == {"finish", "emitfinish", "error", "errlogs", "panic", "noemit", "emit2"}
-ExchTerms == {"finish", "error", "panic", "noemit", "emit2"}
+ProdTerms == {"finish", "emitfinish", "error", "errlogs", "panic", "emitpanic", "noemit", "emit2"}
+ExchTerms == {"finish", "error", "panic", "emitpanic", "noemit", "emit2"}
 TurnSeqs(n, terms) == PreSeqs(n) \cup { p \o <<t>> : p \in PreSeqs(n), t \in terms }
 HdrOf(m) == m \in {"prodh", "exchh"}
 InCombos(nins) == { <<n, c>> \in nins \X (0..3) : c <= n }
@@ -374,7 +374,8 @@ Turn ==
             [] t = "errlogs" ->
                  \* logs emitted through the collector before a failing turn are discarded
                  /\ out' = AddOut(<< Exc("ValueError", "") >>) /\ pc' = "close" /\ herr' = "ValueError"
-            [] t \in {"panic", "noemit", "emit2"} ->
+            \* a turn that fails after emitting delivers nothing but the exception
+            [] t \in {"panic", "emitpanic", "noemit", "emit2"} ->
                  /\ out' = AddOut(<< Exc("RuntimeError", "") >>) /\ pc' = "close" /\ herr' = "RuntimeError"
     /\ UNCHANGED <<inq, cur, hk, ncalls, closed>> /\ Silent
 
